@@ -187,7 +187,10 @@ def batch_evaluate_function(
                 )
             else:
                 out = np.concatenate(
-                    pool.map(func_wrapper, np.array_split(x, n_pool))
+                    pool.map(
+                        func_wrapper,
+                        np.array_split(x, n_pool if n_pool else 1),
+                    )
                 )
         else:
             out = np.array(pool.map(func_wrapper, x)).flatten()
